@@ -755,7 +755,7 @@ class SISPHScheme(Scheme):
     def setup_properties(self, particles, clean=True):
         particle_arrays = dict([(p.name, p) for p in particles])
         dummy = get_particle_array_sisph(
-            name='junk', gid=particle_arrays['fluid'].gid
+            name='junk', gid=particle_arrays[self.fluids[0]].gid
         )
         props = list(dummy.properties.keys())
         props += [dict(name=x, stride=v) for x, v in dummy.stride.items()]
